@@ -31,8 +31,14 @@ const (
 	defaultHostPrompt  = "decide which tool is best for the task and call only the best tool."
 )
 
+func init() {
+	// the flow's graph state is part of every checkpoint of a graph it runs in; the type cannot be registered
+	// from outside the package
+	_ = compose.RegisterSerializableType[state]("_eino_host_multi_agent_state")
+}
+
 type state struct {
-	msgs []*schema.Message
+	Msgs []*schema.Message // exported: the state is part of a checkpoint
 }
 
 // NewMultiAgent creates a new host multi-agent system.
@@ -131,7 +137,7 @@ func addSpecialistAgent(specialist *Specialist, g *compose.Graph[[]*schema.Messa
 			return err
 		}
 		preHandler := func(_ context.Context, input []*schema.Message, state *state) ([]*schema.Message, error) {
-			return state.msgs, nil // replace the tool call message with input msgs stored in state
+			return state.Msgs, nil // replace the tool call message with input msgs stored in state
 		}
 		if err := g.AddLambdaNode(specialist.Name, lambda, compose.WithStatePreHandler(preHandler), compose.WithNodeName(specialist.Name)); err != nil {
 			return err
@@ -142,10 +148,10 @@ func addSpecialistAgent(specialist *Specialist, g *compose.Graph[[]*schema.Messa
 				return append([]*schema.Message{{
 					Role:    schema.System,
 					Content: specialist.SystemPrompt,
-				}}, state.msgs...), nil
+				}}, state.Msgs...), nil
 			}
 
-			return state.msgs, nil // replace the tool call message with input msgs stored in state
+			return state.Msgs, nil // replace the tool call message with input msgs stored in state
 		}
 
 		if err := g.AddChatModelNode(specialist.Name, specialist.ChatModel, compose.WithStatePreHandler(preHandler), compose.WithNodeName(specialist.Name)); err != nil {
@@ -158,7 +164,7 @@ func addSpecialistAgent(specialist *Specialist, g *compose.Graph[[]*schema.Messa
 
 func addHostAgent(model model.BaseChatModel, prompt string, g *compose.Graph[[]*schema.Message, *schema.Message]) error {
 	preHandler := func(_ context.Context, input []*schema.Message, state *state) ([]*schema.Message, error) {
-		state.msgs = input
+		state.Msgs = input
 		if len(prompt) == 0 {
 			return input, nil
 		}
